@@ -27,27 +27,33 @@ CHECKS["C16"] = {
     "rule": "A: all level names over {a,b} of length<=2 (thorough {a,b,c}, <=3) plus the empty level x all granted lists "
             "of <=3 such names, the empty list and '*' -> Message::checkLevel and Message::hasLevel. "
             "B: every ACL {default entry from the ACL '*' row | from --accesslevel} x default list x user list (lists of "
-            "<=2 names, empty, '*') plus {no default entry} x user lists of <=3 names; x authentication "
-            "{none, right secret, wrong secret, missing secret, unknown user} x every message level x forms "
-            "{read NAME, read NAME with fresh cache, read -f -c C NAME, read -h, read -p, write -c, write -h, "
-            "HTTP /data/C/NAME?required&user=&secret=, HTTP ...?poll=, find NAME} plus listing forms {find, find -w, "
-            "HTTP /data/C?write=1, DataSink::notifyUpdate}. distinct = distinct (form, auth, level, effective list, "
-            "default source) tuples resp. (level, list) pairs; states = ACL files.",
+            "<=2 names, empty, '*'; thorough: --accesslevel only with user lists of <=1 name) plus {no default entry} x "
+            "user lists of <=3 names; x authentication {none, right secret, wrong secret, missing secret, unknown user} x "
+            "every message level x 16 forms {read NAME, read -c C NAME, read -f -c C NAME, read -m 86400 NAME, read -h, "
+            "read -f -h, read -p, write -c, write -h, HTTP /data/C/NAME?required, HTTP /data/C/NAME (cached), "
+            "HTTP ...?maxage=60, HTTP ...?poll=, find NAME, find -d NAME, find -d -h NAME} x 5 prior histories on the same "
+            "MainLoop {nothing; message just seen on the bus (fresh cached data); seen 400 s ago (older than the default "
+            "max age); an authorised other session just read/wrote it; the same client issued the same request just "
+            "before}; plus listing forms {find, find -w, find -a -d, HTTP /data/C?write=1, DataSink::notifyUpdate} x "
+            "{no data, every message with fresh cached data}. A denied client must get the value neither from the bus "
+            "nor from the cache in any history. distinct = distinct (form, history, auth, level, effective list, default "
+            "source) tuples resp. (level, list) pairs; states = ACL files.",
     "assumptions": [
         "granted iff the message has no level, or the granted list is '*', or the level equals one ';'-separated entry "
         "of the list (message.h documents the semicolon); the effective list is the user's ACL entry after a successful "
         "auth, otherwise the default entry (ACL '*' row or --accesslevel)",
         "an HTTP request whose credentials do not authenticate may be refused as a whole (403) instead of being served "
         "with the default levels: both grant at most the default levels",
-        "the bus is a FakeProtocol answering every master-slave telegram; time() is a virtual clock",
+        "the bus is a FakeProtocol answering every master-slave telegram; time() is a virtual clock; prior histories are "
+        "one step deep (one earlier event per case) and every case starts from reset message state",
     ],
     "runs": [{
         "harness": "c16_levels", "sources": ["engines/cmdmc/c16_levels.cpp"], "deps": _FIX,
         "variant": "plain", "libset": "full",
-        "quick": {"parts": 16, "deadline": 80,
-                  "bounds": "levels over {a,b} len<=2; 260 lists x 7 levels; 4132 ACLs x 5 auth states x 7 levels x 10 forms + 4 listings"},
-        "thorough": {"parts": 16, "deadline": 800,
-                     "bounds": "levels over {a,b,c} len<=3; 60881 lists x 40 levels; ACL names over {a,b,c} len<=2: 51815 ACLs x 5 x 40 x 10 + listings"},
+        "quick": {"parts": 16, "deadline": 300,
+                  "bounds": "levels over {a,b} len<=2; 260 lists x 7 levels; 4132 ACLs x 5 auth states x (7 levels x 16 forms x 5 histories + 5 listings x 2 histories)"},
+        "thorough": {"parts": 16, "deadline": 2700,
+                     "bounds": "levels over {a,b,c} len<=3; 60881 lists x 40 levels; ACL names over {a,b,c} len<=2: 29062 ACLs x 5 x (40 x 16 x 5 + 10)"},
     }],
 }
 
